@@ -131,8 +131,12 @@ class Keccak(object):
 
     # Duplex construction (see "Cryptographic Sponge Functions", http://sponge.noekeon.org)
     def duplex(self,m,bitlen=None,outlen=None):
-        self.duplexing = True
-        L = [x for x in self.iterblocks(m,bitlen)]
+        # the duplex input is in native (LSB first) bit order, for this call only:
+        duplexing,self.duplexing = self.duplexing,True
+        try:
+            L = [x for x in self.iterblocks(m,bitlen)]
+        finally:
+            self.duplexing = duplexing
         assert len(L)==1
         if outlen is None: outlen=self.r
         if not hasattr(self,'_S'):
